@@ -6,10 +6,13 @@ use serde_json::{json, Value};
 use std::panic::AssertUnwindSafe;
 
 pub fn price_s(p: u32) -> i64 {
+    let off = crate::price_offset() as i64;
     if p == u32::MAX {
         SPEC_MAX_PRICE
+    } else if p == 0 {
+        0
     } else {
-        p as i64
+        p as i64 - off
     }
 }
 
@@ -75,14 +78,20 @@ fn g<F: FnOnce() -> Value>(f: F) -> Value {
 }
 
 /// Twice the mid-price as an integer in the specification's number system.
-pub fn mid2_s(mid: f64, ask: u32) -> Value {
+pub fn mid2_s(mid: f64, bid: u32, ask: u32) -> Value {
     let m2 = mid * 2.0;
     if m2.fract() != 0.0 || !m2.is_finite() {
         return json!(format!("non-integral 2*mid {}", m2));
     }
     let mut m2 = m2 as i64;
+    let off = crate::price_offset() as i64;
     if ask == u32::MAX {
         m2 = m2 - (u32::MAX as i64) + SPEC_MAX_PRICE;
+    } else if ask != 0 {
+        m2 -= off;
+    }
+    if bid != 0 && bid != u32::MAX {
+        m2 -= off;
     }
     json!(m2)
 }
@@ -113,7 +122,7 @@ pub fn views<const L: usize>(b: &OrderBook<L>) -> Value {
         "abest": g(|| { let (v, n) = b.ask_best_vol_and_orders(); json!([v, n]) }),
         "blev": g(|| pairs(&b.bid_levels())),
         "alev": g(|| pairs(&b.ask_levels())),
-        "mid2": g(|| mid2_s(b.mid_price(), ask)),
+        "mid2": g(|| mid2_s(b.mid_price(), bid, ask)),
         "bv": g(|| json!([b.bid_best_vol(), b.ask_best_vol()])),
         "l1": g(|| {
             let d = b.level_1_data();
